@@ -48,6 +48,8 @@ TEXTS = [
     'T154N-R97W Sec 1: Lot 1 (40.00), Lot 2 (39.50), S/2N/2; Sec 2: ALL',
     'T154N-R97W Sec 14: NE/4, a\\k\\a "the Johnson tract", Book 12\\Page 40; '
     "it's 50% of the W/2\t(tab)\r\nSec 15: that part \\ less and except",
+    # old-Mac line ends: a carriage return on its own
+    'T154N-R97W Sec 14: NE/4\rthat part lying north\rSec 15: W/2',
 ]
 CONFIGS = ['parse_qq', 'parse_qq,clean_qq', 'parse_qq,sec_colon_cautious',
            'parse_qq,segment', '', 'parse_qq,qq_depth.1']
@@ -212,7 +214,14 @@ def check_csv(case, d, ctx, pytrs, tmp):
         uid = case.get('uid')
         w = TractWriter(attrs, fp, mode, plus_cols=plus_cols,
                         nice_headers=nice, uid=uid)
-        n = w.write(d, plus_cols=plus_data)
+        # "a Tract, PLSSDesc, TractList, or an iterable container of any
+        # number and combination of them"
+        how = ctx.evaluations % 5
+        ctx.hit(f'csv:TractWriter:arg{how}')
+        arg = (d if how == 0 else d.tracts if how == 1 else list(d.tracts)
+               if how == 2 else [d] if how == 3
+               else (pytrs.TractList(tracts[:1]), tracts[1:]))
+        n = w.write(arg, plus_cols=plus_data)
         w.close()
         if n != len(tracts):
             ctx.violation('writer-count', case,
